@@ -8,12 +8,12 @@
 EXTENDS Alerts, AlertsConsts, Json, IOUtils
 VARIABLE trail
 GenInit == Init /\ trail = <<>>
-Row(a, c) == [a |-> a, c |-> c, state |-> state', sent |-> sent', law |-> law', adm |-> adm', now |-> now']
-GenNext == \/ \E c \in BOOLEAN : Evaluate(c) /\ trail' = Append(trail, Row("eval", c))
-           \/ Tick /\ trail' = Append(trail, Row("tick", FALSE))
-           \/ UserEdit /\ trail' = Append(trail, Row("edit", FALSE))
-           \/ Silence /\ trail' = Append(trail, Row("silence", FALSE))
-           \/ Unsilence /\ trail' = Append(trail, Row("unsilence", FALSE))
+Row(a, c, d) == [a |-> a, c |-> c, d |-> d, state |-> state', sent |-> sent', law |-> law', adm |-> adm', now |-> now']
+GenNext == \/ \E c \in BOOLEAN, d \in {"ok", "fail"} : Evaluate(c, d) /\ trail' = Append(trail, Row("eval", c, d))
+           \/ Tick /\ trail' = Append(trail, Row("tick", FALSE, "ok"))
+           \/ UserEdit /\ trail' = Append(trail, Row("edit", FALSE, "ok"))
+           \/ Silence /\ trail' = Append(trail, Row("silence", FALSE, "ok"))
+           \/ Unsilence /\ trail' = Append(trail, Row("unsilence", FALSE, "ok"))
 GenSpec == GenInit /\ [][GenNext]_<<vars, trail>>
 Emit == IF Len(g.cs) = MaxEvals
         THEN Serialize(ToJson([n |-> N, cool |-> Cool, sil |-> SilLen, steps |-> trail]) \o "\n", "behaviours.ndjson",
